@@ -277,7 +277,11 @@ Section WaitProcs.
     end.
 
   (* exception or (gone, alive) with the final state *)
-  Definition wait_procs (timeout : option Q) (rounds : nat) (start : Q) : option wres * list nat * list nat * gst :=
+  (* `alive = set(procs)`: the set holds one handle per PROCESS (Process.__eq__/__hash__ go by pid + start time),
+     so listing an object twice, or two equal objects for one process, gives one element.  alive0 = the distinct
+     processes of the input *)
+  Definition wait_procs_from (alive0 : list nat) (timeout : option Q) (rounds : nat) (start : Q)
+      : option wres * list nat * list nat * gst :=
     let g0 := {| g_now := start; g_objs := map (fun _ => new_pobj) kos; g_gone := []; g_rc := [];
                  g_cb := []; g_sleeps := []; g_waits := [] |} in
     if bad_timeout timeout then (Some RValueError, [], [], g0)
@@ -285,7 +289,7 @@ Section WaitProcs.
     | CbBad => (Some RTypeError, [], [], g0)
     | _ =>
       let deadline := match timeout with Some t => Some (start + t) | None => None end in
-      match outer rounds deadline (seq 0 (length kos)) g0 timeout 0 with
+      match outer rounds deadline alive0 g0 timeout 0 with
       | (Some e, alive, g, _) => (Some e, [], alive, g)
       | (None, alive, g, r) =>
         match sweep (order r alive) g with
@@ -294,4 +298,12 @@ Section WaitProcs.
         end
       end
     end.
+
+  (* the input as a list of handles, each naming its process: a multiset over the processes *)
+  Definition wait_procs_of (input : list nat) : option Q -> nat -> Q -> option wres * list nat * list nat * gst :=
+    wait_procs_from (nodup Nat.eq_dec input).
+
+  (* every process listed once *)
+  Definition wait_procs : option Q -> nat -> Q -> option wres * list nat * list nat * gst :=
+    wait_procs_from (seq 0 (length kos)).
 End WaitProcs.
